@@ -136,3 +136,10 @@ CHECKS["C03"] = dict(
  text="10 host contexts (module level, function body, closure body, class method, constructor, else-if arm, while body, from body, doubly nested block, imported module) x 77 type-breaking edits (wrong-typed annotated initialiser incl. alias / class / optional / function types, re-assignment with another type of a variable / field / list element / map value / through an op-assignment, wrong argument type and count for functions / methods / constructors / built-ins, wrong / missing / superfluous return value, optional returned as plain, non-boolean conditions in if / else-if / while / assert / ! / &&, unknown name / type / field / method, call of a non-callable, index of a non-indexable, non-index index, wrong map key type, operators on unsupported kinds, optional misuse, from-loop bound / step of the wrong type, break / continue outside a loop). The first statement prints a marker. Oracle: `mscript run` exits 1 with 'Did not compile', never a panic; the marker is not printed; a diagnostic names the file containing the edited statement and a line inside it. Each host is also run without a fault (must compile and print the marker).",
  note="The catalogue is fixed; faults are single-statement edits on hosts that declare one variable of each type.",
  design_ref="DESIGN.md section 4, C03")
+
+CHECKS["C09"] = dict(
+ category="model_checking",
+ technique="explicit-state exploration of an abstract machine whose transition relation is the bytecode the real compiler emitted (all branch outcomes), invariants on every state, plus conformance of real per-instruction traces (hook H1) to the explored model",
+ text="For every function of every program of the corpus (control-flow skeletons shared with C01: depth <= 2 shapes, module / recursion variants, pairs of compounds, single deviations of all loop shapes with break / continue, spines to nesting depth 4 quick / all C01 layers thorough; the repository's examples; generated programs of the other checks) the instruction list loaded by the interpreter (hook H3) is explored as the machine (ip, stack of open block frames, set of possible operand-stack depths) with both outcomes of every conditional instruction (if, while_loop, jmp_not_nil, store_skip). Invariants: jump targets inside the function; done / jmp_pop never pop more block frames than are open; the frame stack at an instruction is the same on every path (no accumulation across loop iterations); some operand shape satisfies every instruction; ret_mod and fall-through leave no block frame open. Every program is also executed and its trace (function, ip, opcode, frame depth, operand depth per instruction) must be a path of the explored model with depths inside the model's sets; the exit-time stack check must agree. Quick: ~11 000 programs, ~7 M model states, ~11 M traced instructions validated.",
+ note="Opcode semantics table transcribed once from bytecode/src/instruction.rs and validated by the traces on the unchanged tree (a trace outside the model on the unchanged tree would be a machinery error). A call yields 0 or 1 operand (result arity is not tracked).",
+ design_ref="DESIGN.md section 4, C09")
